@@ -40,24 +40,22 @@ def so2OfComplex (re im : α) : Vec α 2 :=
   let n := Scalar.sqrt (im * im + re * re)
   mk2 (im / n) (re / n)
 
-/-! ### SO2: angle representations (so2.hpp:72-107) -/
+/-! ### SO2: angle representations (so2.hpp:72-105) -/
 
 /-- `angle()`: `log().x()` = `atan2(qz, qw)` -/
 def angle (g : Vec α 2) : α := (SO2.log g) 0
 
-/-- `angle_cw()`: `x = coeffs.y (= qw)`, `y = coeffs.x (= qz)`;
-    `if (y <= 0.) atan2(y, x) else atan2(-y, -x) - M_PI`.
-    The comparison is the IEEE one: `-0.0 <= 0.` and `+0.0 <= 0.` are both true. -/
+/-- `angle_cw()` (so2.hpp, after fix 38a157c): `x = coeffs.y (= qw)`, `y = coeffs.x (= qz)`;
+    `a = atan2(y, x)`; `a > 0 ? a - Scalar(2*M_PI) : a` — every strictly positive principal angle
+    (incl. the `+π` of `atan2(+0, x<0)`) is moved one turn down. -/
 def angle_cw (g : Vec α 2) : α :=
-  let x := g 1
-  let y := g 0
-  if y ≤ nat 0 then Scalar.atan2 y x else Scalar.atan2 (-y) (-x) - Scalar.pi
+  let a := Scalar.atan2 (g 0) (g 1)
+  if nat 0 < a then a - nat 2 * Scalar.pi else a
 
-/-- `angle_ccw()`: `if (y >= 0.) atan2(y, x) else M_PI + atan2(-y, -x)` -/
+/-- `angle_ccw()`: `a = atan2(y, x)`; `a < 0 ? a + Scalar(2*M_PI) : a` -/
 def angle_ccw (g : Vec α 2) : α :=
-  let x := g 1
-  let y := g 0
-  if nat 0 ≤ y then Scalar.atan2 y x else Scalar.pi + Scalar.atan2 (-y) (-x)
+  let a := Scalar.atan2 (g 0) (g 1)
+  if a < nat 0 then a + nat 2 * Scalar.pi else a
 
 /-- `unit_complex()` / `u1()`: `(re, im) = (qw, qz)` — a coefficient permutation -/
 def u1 (g : Vec α 2) : Vec α 2 := mk2 (g 1) (g 0)
